@@ -80,7 +80,7 @@ def count_entries(arrs):
     return defined, undefined, neginf
 
 
-def fam_solve(rng, n, *, name="solve_vs_spec", max_periods=3, jit_modes=(True, False), features=None):
+def fam_solve(rng, n, *, name="solve_vs_spec", max_periods=3, jit_modes=(True, False), features=None, beta_zero=False):
     """lcm.solve vs the Spec's Bellman tables in the documented layout"""
     fam = Family(name,
                  "random whole models: 1-3 periods, 1-3 states and 1-3 choices (discrete 2-4 labels, linear "
@@ -91,6 +91,10 @@ def fam_solve(rng, n, *, name="solve_vs_spec", max_periods=3, jit_modes=(True, F
                  "entry of every period's array compared with the Spec's value in the documented layout; "
                  "distinct = distinct model source + params; non-trivial = >= 2 periods or a filter/constraint")
     cases = gen_cases(rng, n, max_periods=max_periods, features=features)
+    if beta_zero:
+        for c in cases:
+            c["_params"]["beta"] = Fraction(0)
+            c["params"] = G.params_json(c["_params"], q)
     wcases = []
     for k, c in enumerate(cases):
         w = wire(c)
